@@ -2,7 +2,34 @@
 import astprops
 
 
+def static_scan(v, tier, seed):
+    """C text: no object with static storage duration may be writable (reentrancy / no state
+    surviving a call).  Read off the compiled text with pycparser, every kernel of the corpus."""
+    import common
+    import corpus
+    import cparse
+    cases = list(corpus.PINNED) + corpus.random_cases(seed, 10 if tier == "quick" else 150)
+    n = 0
+    for r in common.run_cases(cases, want_text=True):
+        if r["status"] != "ok":
+            continue
+        for kd in r["kernels"]:
+            try:
+                bad = cparse.mutable_statics(r["source"], kd["name"])
+            except Exception as e:  # noqa: BLE001
+                v.oblige(False)
+                v.violation(f"static-scan:{r['id']}", f"cannot read kernel text: {e}", {"case": r["id"], "code": r["code"]}, no_input=True)
+                continue
+            n += 1
+            v.oblige(not bad)
+            if bad:
+                v.violation(f"mutable-static:{r['id']}", f"kernel {kd['name']} declares writable static storage {bad[:4]}: calls are not independent / not reentrant",
+                            {"case": r["id"], "code": r["code"], "kernel": kd["name"], "names": bad})
+    v.notes["kernels_scanned_for_mutable_statics"] = n
+
+
 def run(v, tier, seed, g):
+    static_scan(v, tier, seed)
     return astprops.run_ast_property(
         v, tier, seed, g, "accum", "C07", astprops.search_accum_counterexample,
         "kernel result depends on the previous contents of A or overwrites A",
